@@ -236,8 +236,28 @@ static uint64_t sparse_decimal(vh_rng_t * rng) {
     }
     return vh_chance(rng, 1, 4) ? (uint64_t) (0 - v) : v;
 }
+/* a 32-bit word that is round in binary or in decimal (a converter working in words / in groups of digits compares words with such constants) */
+static uint32_t round_word(vh_rng_t * rng) {
+    uint32_t w;
+    switch (vh_below(rng, 5)) {
+        case 0: { w = 1; int k = (int) vh_below(rng, 10); while (k--) w *= 10; break; }          /* 10^k, k = 0..9 */
+        case 1: w = 1u << vh_below(rng, 32); break;
+        case 2: w = vh_chance(rng, 1, 2) ? 0xffffffffu : 0u; break;
+        case 3: { static const uint32_t c[] = { 999999999u, 99999999u, 4294967295u / 10, 429496729u, 2147483647u, 65535u, 65536u, 10000u, 9999u }; w = c[vh_below(rng, sizeof c / sizeof c[0])]; break; }
+        default: return (uint32_t) vh_rand(rng);
+    }
+    return w + (uint32_t) ((int32_t) vh_below(rng, 3) - 1);
+}
+/* values made of round words, and values whose quotient by a power of ten is a round word (the edges of a conversion done in chunks) */
+static uint64_t word_structured(vh_rng_t * rng) {
+    uint64_t v;
+    if (vh_chance(rng, 1, 2)) v = ((uint64_t) round_word(rng) << 32) | (vh_chance(rng, 1, 2) ? round_word(rng) : (uint32_t) vh_rand(rng));
+    else { uint64_t p = 1; int k = 1 + (int) vh_below(rng, 10); while (k--) p *= 10; v = (uint64_t) round_word(rng) * p + vh_rand(rng) % p; }
+    return vh_chance(rng, 1, 4) ? (uint64_t) (0 - v) : v;
+}
 static uint64_t biased64(vh_rng_t * rng) {
     uint64_t r = vh_rand(rng);
+    if (vh_below(rng, 6) == 0) return word_structured(rng);
     if (vh_below(rng, 5) == 0) return sparse_decimal(rng);
     if (vh_below(rng, 6) == 0) { /* round in decimal plus round in binary: d*10^e + c*2^k (remainders that are multiples of 2^32, 2^16, ...) */
         uint64_t p10 = 1, v; int e = (int) vh_below(rng, 20); while (e--) p10 *= 10;
